@@ -113,38 +113,52 @@ inductive Dispatcher where
   | generic | client | server
   deriving DecidableEq, Repr
 
-/-- content dispatch: `match ext_type { … }` of the three dispatchers.
-    Returns `none` for the `_ =>` (Unknown) arm. -/
+/-- which dispatchers have an arm -/
+inductive Arms where
+  | all        -- generic, client and server
+  | cg         -- generic and client only
+  | g          -- generic only
+  deriving DecidableEq, Repr
+
+def Arms.has : Arms → Dispatcher → Bool
+  | .all, _ => true
+  | .cg, d => d != .server
+  | .g, d => d == .generic
+
+/-- the `match ext_type { … }` arms of the three dispatchers as one table
+    (type, dispatchers having the arm, content parser); types are distinct, so the first
+    matching row is the arm the Rust `match` selects. -/
+def extTable (extLen : Nat) : List (Nat × Arms × Parser β (Extension β)) := [
+  (0, .all, parseSniContent),
+  (1, .all, parseMaxFragmentLengthContent),
+  (5, .all, parseStatusRequestContent extLen),
+  (10, .cg, parseEllipticCurvesContent),
+  (11, .all, parseEcPointFormatsContent),
+  (13, .all, parseSignatureAlgorithmsContent),
+  (15, .all, parseHeartbeatContent),
+  (16, .all, parseAlpnContent),
+  (18, .all, parseSctContent),
+  (21, .cg, mapP (take extLen) .padding),
+  (22, .all, parseEmptyContent extLen .encryptThenMac),
+  (23, .all, parseEmptyContent extLen .extendedMasterSecret),
+  (28, .all, mapP (beU 2) .recordSizeLimit),
+  (35, .all, mapP (take extLen) .sessionTicket),
+  (40, .g, mapP (take extLen) .keyShareOld),
+  (41, .all, mapP (take extLen) .preSharedKey),
+  (42, .all, parseEarlyDataContent extLen),
+  (43, .all, parseSupportedVersionsContent extLen),
+  (44, .all, mapP (take extLen) .cookie),
+  (45, .cg, parsePskModesContent),
+  (48, .cg, parseOidFilters),
+  (49, .cg, parseEmptyContent extLen .postHandshakeAuth),
+  (51, .all, mapP (take extLen) .keyShare),
+  (13172, .all, parseEmptyContent extLen .nextProtocolNegotiation),
+  (0xff01, .all, parseRenegotiationInfoContent),
+  (0xffce, .cg, parseEncryptedServerName)]
+
+/-- content dispatch; `none` is the `_ =>` (Unknown) arm -/
 def extContentParser (d : Dispatcher) (t extLen : Nat) : Option (Parser β (Extension β)) :=
-  let cs := d != .server          -- arms present in client and generic only
-  let g := d == .generic          -- arms present in generic only
-  if t = 0 then some parseSniContent
-  else if t = 1 then some parseMaxFragmentLengthContent
-  else if t = 5 then some (parseStatusRequestContent extLen)
-  else if t = 10 ∧ cs then some parseEllipticCurvesContent
-  else if t = 11 then some parseEcPointFormatsContent
-  else if t = 13 then some parseSignatureAlgorithmsContent
-  else if t = 15 then some parseHeartbeatContent
-  else if t = 16 then some parseAlpnContent
-  else if t = 18 then some parseSctContent
-  else if t = 21 ∧ cs then some (mapP (take extLen) .padding)
-  else if t = 22 then some (parseEmptyContent extLen .encryptThenMac)
-  else if t = 23 then some (parseEmptyContent extLen .extendedMasterSecret)
-  else if t = 28 then some (mapP (beU 2) .recordSizeLimit)
-  else if t = 35 then some (mapP (take extLen) .sessionTicket)
-  else if t = 40 ∧ g then some (mapP (take extLen) .keyShareOld)
-  else if t = 41 then some (mapP (take extLen) .preSharedKey)
-  else if t = 42 then some (parseEarlyDataContent extLen)
-  else if t = 43 then some (parseSupportedVersionsContent extLen)
-  else if t = 44 then some (mapP (take extLen) .cookie)
-  else if t = 45 ∧ cs then some parsePskModesContent
-  else if t = 48 ∧ cs then some parseOidFilters
-  else if t = 49 ∧ cs then some (parseEmptyContent extLen .postHandshakeAuth)
-  else if t = 51 then some (mapP (take extLen) .keyShare)
-  else if t = 13172 then some (parseEmptyContent extLen .nextProtocolNegotiation)
-  else if t = 0xff01 then some parseRenegotiationInfoContent
-  else if t = 0xffce ∧ cs then some parseEncryptedServerName
-  else none
+  ((extTable extLen).find? (fun e => e.1 == t && e.2.1.has d)).map (fun e => e.2.2)
 
 /-- `parse_tls_extension` / `parse_tls_client_hello_extension` / `parse_tls_server_hello_extension` -/
 def parseExtensionD (d : Dispatcher) : Parser β (Extension β) := fun i =>
